@@ -674,5 +674,79 @@ example : ∀ v ∈ [Val.uint 7, .int (-1), .bool true], ∃ a, ZVal v a := by
   · exact ⟨_, .bool true⟩
 
 
+/-! ### min is below every argument in every totally preordered class (strings and bytes included) -/
+
+theorem cmpBy_eq_symm {α} (lt : α → α → Bool) (a b : α) (h : cmpBy lt a b = .eq) : cmpBy lt b a = .eq := by
+  unfold cmpBy at *
+  by_cases h1 : lt a b = true <;> by_cases h2 : lt b a = true <;> simp_all
+
+theorem foldl_min_ole {S : Val → Prop} (H : OrdOK S) (hne : ∀ a, S a → a.isErr = false)
+    (hsym : ∀ a b, S a → S b → ord a b = .ok (some .eq) → ord b a = .ok (some .eq)) :
+    ∀ (xs : List Val) (cur : Val), S cur → (∀ v ∈ xs, S v) →
+      let r := xs.foldl (fun cur v => match rel .lt v cur with | .bool true => v | _ => cur) cur
+      S r ∧ OLe r cur ∧ ∀ w ∈ xs, OLe r w
+  | [], cur, hc, _ => by
+    obtain ⟨o, ho⟩ := H.total cur cur hc hc
+    refine ⟨hc, ?_, by simp⟩
+    cases o
+    · exact Or.inl ho
+    · exact Or.inr ho
+    · exact H.conv cur cur hc hc ho
+  | v :: vs, cur, hc, hs => by
+    have hv : S v := hs v (by simp)
+    have hvs : ∀ w ∈ vs, S w := fun w hw => hs w (by simp [hw])
+    obtain ⟨o, ho⟩ := H.total v cur hv hc
+    simp only [List.foldl_cons, rel_of_ord .lt v cur _ (hne v hv) (hne cur hc) ho, holds_lt]
+    cases o
+    · simp only [decide_true]
+      obtain ⟨h1, h2, h3⟩ := foldl_min_ole H hne hsym vs v hv hvs
+      refine ⟨h1, H.trans _ v cur h1 hv hc h2 (Or.inl ho), ?_⟩
+      intro w hw
+      rcases List.mem_cons.mp hw with rfl | hw
+      · exact h2
+      · exact h3 w hw
+    · simp only [reduceCtorEq, decide_false]
+      obtain ⟨h1, h2, h3⟩ := foldl_min_ole H hne hsym vs cur hc hvs
+      refine ⟨h1, h2, ?_⟩
+      intro w hw
+      rcases List.mem_cons.mp hw with rfl | hw
+      · exact H.trans _ cur _ h1 hc hv h2 (Or.inr (hsym _ _ hv hc ho))
+      · exact h3 w hw
+    · simp only [reduceCtorEq, decide_false]
+      obtain ⟨h1, h2, h3⟩ := foldl_min_ole H hne hsym vs cur hc hvs
+      refine ⟨h1, h2, ?_⟩
+      intro w hw
+      rcases List.mem_cons.mp hw with rfl | hw
+      · exact H.trans _ cur _ h1 hc hv h2 (H.conv _ _ hv hc ho)
+      · exact h3 w hw
+
+/-- `min` of any number of arguments of one totally preordered class: no argument is strictly below the result. -/
+theorem minOf_ole {S : Val → Prop} (H : OrdOK S) (hne : ∀ a, S a → a.isErr = false)
+    (hsym : ∀ a b, S a → S b → ord a b = .ok (some .eq) → ord b a = .ok (some .eq))
+    (x : Val) (xs : List Val) (h : ∀ v ∈ x :: xs, S v) :
+    ∀ w ∈ x :: xs, OLe (minOf (x :: xs)) w := by
+  obtain ⟨_, h2, h3⟩ := foldl_min_ole H hne hsym xs x (h x (by simp)) (fun v hv => h v (by simp [hv]))
+  intro w hw
+  rcases List.mem_cons.mp hw with rfl | hw
+  · exact h2
+  · exact h3 w hw
+
+theorem minOf_str_least (x : Val) (xs : List Val) (h : ∀ v ∈ x :: xs, ∃ s, v = .str s) :
+    ∀ w ∈ x :: xs, OLe (minOf (x :: xs)) w :=
+  minOf_ole ordOK_str (by rintro a ⟨s, rfl⟩; rfl)
+    (by rintro a b ⟨s, rfl⟩ ⟨t, rfl⟩ hab
+        simp only [ord, widen, OrdRes.ok.injEq, Option.some.injEq] at hab ⊢
+        exact cmpBy_eq_symm _ _ _ hab) x xs h
+
+theorem minOf_bytes_least (x : Val) (xs : List Val) (h : ∀ v ∈ x :: xs, ∃ s, v = .bytes s) :
+    ∀ w ∈ x :: xs, OLe (minOf (x :: xs)) w :=
+  minOf_ole ordOK_bytes (by rintro a ⟨s, rfl⟩; rfl)
+    (by rintro a b ⟨s, rfl⟩ ⟨t, rfl⟩ hab
+        simp only [ord, widen, OrdRes.ok.injEq, Option.some.injEq] at hab ⊢
+        exact cmpBy_eq_symm _ _ _ hab) x xs h
+
+example : minOf [.str "b".toList, .str "ab".toList, .str "a".toList, .str "a".toList] = .str "a".toList := by rfl
+
+
 end C04
 end Rscel
